@@ -5,6 +5,7 @@ import typed
 
 ID = "C08"
 THEOREMS = ["where_keeps_item_type", "where_rejects_nonbool", "select_gives_body_type", "selectMany_gives_element_type", "unwrapIterable_iterable", "resolveRet_generic"]
+LEANCHECKER_MODULES = ["Fadl.Props.C08"]  # re-checked by leanchecker in the thorough tier
 RULE = (
     "generated class models (gen/classes.py: Trk, Cal, Jet, Vec[T](Iterable[T]), JVec(Vec[Jet]), Evt, an optional registered "
     "collection class, two registered functions; 0-4 parameters per method with a random suffix of defaults of int/float/"
